@@ -68,6 +68,7 @@ class Ctx:
         self.stats = stats
         self.assumptions = []
         self.nonneg_cache = {}
+        self.term_width = []
         self.pending = []
         self.inst_notes = None
 
@@ -172,12 +173,20 @@ class Ctx:
         self.vars[name] = v
         return SymBool(v)
 
+    pins = {}
+
     def flag(self, name) -> bool:
         """A solver-forked boolean structural choice."""
+        if name in self.pins:
+            return bool(self.pins[name])
         return bool(self.bool(name))
 
     def choice(self, name, n) -> int:
-        """A solver-forked structural choice in range(n)."""
+        """A solver-forked structural choice in range(n) (or pinned by the job)."""
+        if name in self.pins:
+            if not 0 <= self.pins[name] < n:
+                raise Infeasible()
+            return self.pins[name]
         x = self.int(name, 0, n - 1)
         v = self.concretize(x.t, n)
         assert v is not None
@@ -228,9 +237,18 @@ class ConcreteCtx:
     def bool(self, name):
         return bool(self.values[name])
 
-    flag = bool
+    pins = {}
+
+    def flag(self, name):
+        if name in self.pins:
+            return bool(self.pins[name])
+        return bool(self.values[name])
 
     def choice(self, name, n):
+        if name in self.pins:
+            if not 0 <= self.pins[name] < n:
+                raise AssumptionFailed(name)
+            return self.pins[name]
         v = self.values[name]
         if not 0 <= v < n:
             raise AssumptionFailed(name)
@@ -345,11 +363,19 @@ class SymInt:
     # -- comparisons
     def __eq__(self, o):
         x = _int_term(o)
-        return False if x is None else SymBool(self.t == x)
+        if x is None:
+            return False
+        if self.t.eq(x):              # structurally the same term
+            return True
+        return SymBool(self.t == x)
 
     def __ne__(self, o):
         x = _int_term(o)
-        return True if x is None else SymBool(z3.Not(self.t == x))
+        if x is None:
+            return True
+        if self.t.eq(x):
+            return False
+        return SymBool(z3.Not(self.t == x))
 
     def __lt__(self, o):
         x = _int_term(o)
@@ -424,6 +450,7 @@ class SymInt:
         c = Ctx.cur
         k = len(c.terms)
         c.terms.append(self)
+        c.term_width.append(3 if "3" in spec else 0)
         return PH_START + chr(PH_BASE + k) + PH_END
 
     def __str__(self):
@@ -535,7 +562,7 @@ def run_path(body, prefix, stats, qtimeout_ms=10000):
             values = c.model_values(m)
             try:
                 from .strings import instantiate, plain
-                c.inst_notes = plain(instantiate(c.notes, m, c.terms))
+                c.inst_notes = plain(instantiate(c.notes, m, c.terms, c.term_width))
             except Exception as e:      # a cut placeholder inside a note
                 c.inst_notes = None
     if kind == "ok":
